@@ -542,6 +542,10 @@ pub struct VerifSnapshot {
     pub stats: (usize, f64, usize, f64, usize),
     /// statistics of the signed peers routing table
     pub signed_stats: (usize, f64, usize, f64, usize),
+    /// derived statistics of the main routing table, of the signed peers routing table, and what [Info] reports
+    pub derived: (usize, f64, usize, usize),
+    pub signed_derived: (usize, f64, usize, usize),
+    pub info_estimate: (usize, f64),
     /// nodes of the main routing table
     pub table: Vec<Node>,
     /// nodes of the signed peers routing table
@@ -625,6 +629,9 @@ impl Actor {
             cache: self.core.verif_cache(),
             stats: self.core.routing_table.verif_stats(),
             signed_stats: self.core.signed_peers_routing_table.verif_stats(),
+            derived: self.core.routing_table.verif_derived(),
+            signed_derived: self.core.signed_peers_routing_table.verif_derived(),
+            info_estimate: self.info().dht_size_estimate(),
             table: self.core.routing_table.to_owned_nodes(),
             signed_table: self.core.signed_peers_routing_table.to_owned_nodes(),
             mode: (
